@@ -415,7 +415,9 @@ int read_file_stdin(struct in_buffer** buffer,char* infile)
                 MMALLOC(tmp, sizeof(char) * (line_len+1));
                 for(i = 0; i < line_len;i++){
 
-                        if(iscntrl((unsigned char)line[i])){
+                        /* the line ends at the line terminator; a tab or another control character inside the line is
+                           blank space to the readers, not the end of the line */
+                        if(line[i] == '\n' || line[i] == '\r' || line[i] == 0){
                                 break;
                         }
                         tmp[i] = line[i];
